@@ -218,7 +218,10 @@ def gen_scenarios(ctx):
     return scs
 
 
-SPAWN_KINDS = ["missing", "missing-cancel-scope-in-path", "not-executable", "directory", "garbage-executable", "empty-command"]
+SPAWN_KINDS = ["missing", "missing-cancel-scope-in-path", "not-executable", "directory", "garbage-executable", "empty-command",
+               # a missing file whose NAME suggests an interpreter (a launcher that wraps such commands must still fail to enter)
+               "missing-script.py", "missing-script.pyw", "missing-script-in-missing-dir.py", "missing-script.sh", "missing-script.js",
+               "not-executable-script.py"]
 
 
 def gen_spawn(tmpdir, start):
@@ -235,7 +238,16 @@ def gen_spawn(tmpdir, start):
     os.chmod(garbage, 0o700)
     cmds = {"missing": os.path.join(tmpdir, "no-such-command"),
             "missing-cancel-scope-in-path": os.path.join(cs, "no-such-command"),
-            "not-executable": nx, "directory": tmpdir, "garbage-executable": garbage, "empty-command": ""}
+            "not-executable": nx, "directory": tmpdir, "garbage-executable": garbage, "empty-command": "",
+            "missing-script.py": os.path.join(tmpdir, "no_such_server.py"), "missing-script.pyw": os.path.join(tmpdir, "no_such_server.pyw"),
+            "missing-script-in-missing-dir.py": os.path.join(tmpdir, "no-such-dir", "server.py"),
+            "missing-script.sh": os.path.join(tmpdir, "no_such_server.sh"), "missing-script.js": os.path.join(tmpdir, "no_such_server.js")}
+    # a Python source file that exists but is not executable (no x bit): the command as configured cannot be started
+    nxpy = os.path.join(tmpdir, "plain_server.py")
+    with open(nxpy, "w") as f:
+        f.write("import sys\nsys.exit(0)\n")
+    os.chmod(nxpy, 0o600)
+    cmds["not-executable-script.py"] = nxpy
     i = start
     for kind in SPAWN_KINDS:
         for entry in ENTRIES:
